@@ -317,7 +317,7 @@ def run(ctx):
     from ..ref import enc, secp
     from ..core import HarnessError
     rroot = hdscen.ref_root(MASTER)
-    a0 = ctx.seed * 100000 + 3
+    a0 = (ctx.seed * 100000) % (2**31 - 10**6) + 3
 
     def cands_prv():
         a = a0
